@@ -742,34 +742,73 @@ func c16Dispatch(c *Ctx) {
 	rc := p.Method(agentRel, "agentConnection", "receive")
 	if c.Anchor(rd != nil && rc != nil, "conn-buffer", "agentConnection.Read / receive") {
 		n := 0
-		for _, b := range rd.Blocks {
-			for _, in := range b.Instrs {
-				st, ok := in.(*ssa.Store)
-				if !ok {
-					continue
+		// Read and the helpers of the same connection it calls (takeBuffered(b))
+		rdParts := []*ssa.Function{rd}
+		bufParam := map[*ssa.Function]ssa.Value{rd: rd.Params[1]}
+		for _, call := range Calls(rd) {
+			hf := call.Common().StaticCallee()
+			if hf == nil || hf.Blocks == nil || hf.Signature.Recv() == nil || len(call.Common().Args) < 1 || call.Common().Args[0] != ssa.Value(rd.Params[0]) || PkgOf(hf) != PkgOf(rd) {
+				continue
+			}
+			for ai, a := range call.Common().Args {
+				if a == ssa.Value(rd.Params[1]) && ai < len(hf.Params) {
+					rdParts = append(rdParts, hf)
+					bufParam[hf] = hf.Params[ai]
 				}
-				fa, ok := st.Addr.(*ssa.FieldAddr)
-				if !ok || fieldNameOf(fa) != "buff" {
-					continue
-				}
-				n++
-				s := Render(st.Val)
-				okS := s == "p0.buff[copy(p1[:], p0.buff[0:]):]" || s == "p0.buff[copy(p1, p0.buff):]"
-				c.Check(okS, "conn-buffer", fmt.Sprintf("Read re-slice[%d]", n), p.InstrPos(st), "drops exactly the copied prefix", "Read does not drop exactly the bytes it copied to the caller: "+s)
-				// under lock: a Lock call dominates and an Unlock follows
-				locked := false
-				for _, call := range Calls(rd) {
-					if MethodIs(call.Common().StaticCallee(), "sync", "Mutex", "Lock") && call.Block().Dominates(st.Block()) {
-						r := InstrReachFrom(rd, call, nil, func(in ssa.Instruction) bool {
-							cc, ok := in.(ssa.CallInstruction)
-							return ok && MethodIs(cc.Common().StaticCallee(), "sync", "Mutex", "Unlock")
-						})
-						if r(st) {
-							locked = true
+			}
+		}
+		isCopyToCaller := func(v ssa.Value, part *ssa.Function) bool {
+			call, ok := v.(*ssa.Call)
+			if !ok {
+				return false
+			}
+			bi, ok := call.Call.Value.(*ssa.Builtin)
+			if !ok || bi.Name() != "copy" || bufBase(call.Call.Args[0]) != bufParam[part] {
+				return false
+			}
+			x, ok := isFieldLoadNamed(bufBaseSliceOnly(call.Call.Args[1]), "buff")
+			return ok && x == ssa.Value(part.Params[0])
+		}
+		for _, part := range rdParts {
+			for _, b := range part.Blocks {
+				for _, in := range b.Instrs {
+					st, ok := in.(*ssa.Store)
+					if !ok {
+						continue
+					}
+					fa, ok := st.Addr.(*ssa.FieldAddr)
+					if !ok || fieldNameOf(fa) != "buff" {
+						continue
+					}
+					n++
+					okS := false
+					if sl, isSl := st.Val.(*ssa.Slice); isSl && sl.High == nil && sl.Low != nil && isCopyToCaller(sl.Low, part) {
+						if x, isF := isFieldLoadNamed(sl.X, "buff"); isF && x == ssa.Value(part.Params[0]) {
+							okS = true
 						}
 					}
+					c.Check(okS, "conn-buffer", fmt.Sprintf("Read re-slice[%d]", n), p.InstrPos(st), "drops exactly the copied prefix", "Read does not drop exactly the bytes it copied to the caller: "+Render(st.Val))
+					// under lock: a Lock call dominates and no (non-deferred) Unlock lies between
+					locked := false
+					for _, call := range Calls(part) {
+						if _, isDefer := call.(*ssa.Defer); isDefer {
+							continue
+						}
+						if MethodIs(call.Common().StaticCallee(), "sync", "Mutex", "Lock") && call.Block().Dominates(st.Block()) {
+							r := InstrReachFrom(part, call, nil, func(in ssa.Instruction) bool {
+								if _, isDefer := in.(*ssa.Defer); isDefer {
+									return false
+								}
+								cc, ok := in.(ssa.CallInstruction)
+								return ok && MethodIs(cc.Common().StaticCallee(), "sync", "Mutex", "Unlock")
+							})
+							if r(st) {
+								locked = true
+							}
+						}
+					}
+					c.Check(locked, "conn-buffer", fmt.Sprintf("Read re-slice[%d] locked", n), p.InstrPos(st), "", "the receive buffer is re-sliced without holding the connection mutex")
 				}
-				c.Check(locked, "conn-buffer", fmt.Sprintf("Read re-slice[%d] locked", n), p.InstrPos(st), "", "the receive buffer is re-sliced without holding the connection mutex")
 			}
 		}
 		c.Check(n >= 1, "conn-buffer", "Read re-slice sites", p.Pos(rd.Pos()), "", "Read never drops the copied prefix from the receive buffer")
@@ -777,7 +816,25 @@ func c16Dispatch(c *Ctx) {
 			rv := RetVals(r)
 			if IsNilConst(rv[1]) {
 				s := Render(rv[0])
-				c.Check(strings.HasPrefix(s, "copy(p1"), "conn-buffer", fmt.Sprintf("Read return[%d] count", i), p.InstrPos(r), "", "Read returns a count that is not the number of bytes copied: "+s)
+				okC := isCopyToCaller(rv[0], rd)
+				// the count handed back by a helper that returns its own copy count
+				if ex, isE := rv[0].(*ssa.Extract); isE && !okC {
+					if hc, isC := ex.Tuple.(*ssa.Call); isC {
+						if hf := hc.Call.StaticCallee(); hf != nil && bufParam[hf] != nil {
+							okC = true
+							for _, r2 := range Returns(hf) {
+								v2 := RetVals(r2)[ex.Index]
+								if k, isK := ConstInt(v2); isK && k == 0 {
+									continue
+								}
+								if !isCopyToCaller(v2, hf) {
+									okC = false
+								}
+							}
+						}
+					}
+				}
+				c.Check(okC, "conn-buffer", fmt.Sprintf("Read return[%d] count", i), p.InstrPos(r), "", "Read returns a count that is not the number of bytes copied: "+s)
 			}
 		}
 		okApp := false
@@ -815,4 +872,16 @@ func condNotNil(cs []Cond, v ssa.Value) bool {
 		}
 	}
 	return false
+}
+
+// bufBaseSliceOnly strips slicing only (no alias resolution).
+func bufBaseSliceOnly(v ssa.Value) ssa.Value {
+	for i := 0; i < 6; i++ {
+		sl, ok := v.(*ssa.Slice)
+		if !ok {
+			return v
+		}
+		v = sl.X
+	}
+	return v
 }
